@@ -25,6 +25,12 @@ from mc.evidence import HarnessError
 
 from . import _treestates as ts
 
+def _cpu():
+    import resource
+    return round(sum(resource.getrusage(w).ru_utime + resource.getrusage(w).ru_stime
+                     for w in (resource.RUSAGE_SELF, resource.RUSAGE_CHILDREN)), 1)
+
+
 ID = "C09"
 LEVEL = "model_checking"
 TECHNIQUE = "explicit-state BFS over operation sequences on real working trees, step-by-step comparison with a reference model, dedup on canonical state"
@@ -39,7 +45,7 @@ FULL4 = (("mkdir", "d"), ("write", "d/a", b"x\n"), ("mkdir", "e"), ("write", "a"
 PLAN = [
     ("empty", ("bzr", "git"), ts.NS1, (), "fresh", 5, 7),
     ("full", ("bzr", "git"), ts.NS1, FULL, "fresh", 3, 5),
-    ("two-dirs", ("bzr", "git"), ts.NS2, FULL, "fresh", 2, 4),
+    ("two-dirs", ("bzr", "git"), ts.NS2, FULL, "fresh", 2, 3),
     ("nested", ("bzr", "git"), ts.NS3, FULL3, "fresh", 2, 4),
     ("dir-move", ("bzr", "git"), ts.NS4, FULL4, "fresh", 2, 4),
     ("kind-change", ("bzr",), ts.NS1F, FULL, "fresh", 2, 4),
@@ -107,6 +113,7 @@ def run(ctx):
         "parts": parts,
         "determinism_audit_transitions": audit,
         "samples": [{"history": [list(o) for o in h]} for h in (FULL + (("mv", "a", "b"), ("revert",)),)],
+        "cpu_s": _cpu(),
         "exhaustive": True,
     }
 
